@@ -583,6 +583,10 @@ def gen_cases(fmt, backend, tier, seed):
         pool = [chr(c) for c in range(0x21, 0x7F)] + list(_SASL)
         for j in range(0, len(pool), step):
             add("E", "".join(pool[(j + 29 * i + seed) % len(pool)] for i in range(12)), "grid", st_e, ctx0)
+        # a "mapped to nothing" character BETWEEN a composable pair (base + combining mark, Hangul L + V): the profile maps
+        # first and normalises afterwards, so the pair composes
+        for text in ("e\u00ad\u0301x", "n\ufe00\u0303o", "\u1100\u2060\u1161", "a\u200d\u0308b", "A\u034f\u030a"):
+            add("E", text, "compose_across_b1", st_e, ctx0)
     return cases
 
 
